@@ -103,11 +103,14 @@ class Scenario:
         self.sim.settle()
 
 
-def explore(make, triggers, leaf, max_leaves=100000, branch_cap=None, dup_budget=0, drop_budget=0):
+RUNAWAY = {'paths': 0, 'deepest': 0}
+
+
+def explore(make, triggers, leaf, max_leaves=100000, branch_cap=None, dup_budget=0, drop_budget=0, max_depth=240, branch_depth=80, max_runaway=3):
     """Exhaustive interleaving of `triggers` (fired in order) with delivery order of in-flight datagrams.
     make() -> fresh Scenario. leaf(scenario, path) is called at every leaf. Returns (#leaves, #nodes)."""
     stack = [[]]
-    leaves = nodes = 0
+    leaves = nodes = runaway = 0
     while stack and leaves < max_leaves:
         path = stack.pop()
         sc = make()
@@ -148,14 +151,26 @@ def explore(make, triggers, leaf, max_leaves=100000, branch_cap=None, dup_budget
             nodes += 1
             if not opts:
                 break
+            if len(cur) >= max_depth:
+                # a lossless schedule that still has datagrams in flight after hundreds of deliveries: the exchange feeds itself (each answer provokes another request).
+                # The path ends here (the monitors have seen every step of it); the leaf is told through sc.sim.runaway
+                sc.sim.runaway = len(cur)
+                RUNAWAY['paths'] += 1
+                break
             if branch_cap is not None and len(opts) > branch_cap:
                 opts = opts[:branch_cap]
-            for j in range(1, len(opts)):
-                stack.append(cur + [j])
+            if len(cur) < branch_depth:
+                for j in range(1, len(opts)):
+                    stack.append(cur + [j])
             apply(opts[0])
             cur.append(0)
         leaves += 1
+        RUNAWAY['deepest'] = max(RUNAWAY['deepest'], len(cur))
         leaf(sc, cur)
+        if sc.sim.runaway:
+            runaway += 1
+            if runaway >= max_runaway:
+                break
     return leaves, nodes
 
 
